@@ -405,7 +405,9 @@ def register(M):
 
     def np_eye(args, kw, st, node):
         n = num(args[0])
-        return st.alloc(SArr((n, n), lambda i, j: ITE(EQ(i, j), z3.RealVal(1), z3.RealVal(0)), 'float'))
+        from . import linalg_rules as LA
+        LA.axioms(st, ex)
+        return st.alloc(LA.TokArr(LA.EYE(Z(n)), (n, n)))
     E['numpy.eye'] = np_eye
 
     def np_arange(args, kw, st, node):
@@ -453,7 +455,9 @@ def register(M):
     def np_diag(args, kw, st, node):
         a = as_arr(st, args[0])
         if a.ndim == 1:
-            return st.alloc(SArr((a.shape[0], a.shape[0]), lambda i, j: ITE(EQ(i, j), a.get(i), zero_of(a.kind) if a.kind != 'float' else z3.RealVal(0)), a.kind))
+            from . import linalg_rules as LA
+            tv = LA.matrix_token(M, a, st)
+            return st.alloc(LA.TokArr(LA.derived(st, LA.DIAGV(tv)), (a.shape[0], a.shape[0])))
         return st.alloc(SArr((a.shape[0],), lambda i: a.get(i, i), a.kind))
     E['numpy.diag'] = np_diag
 
@@ -542,7 +546,11 @@ def register(M):
             if a.ndim < 2:
                 return base
             if a.ndim == 2:
-                res = SArr((a.shape[1], a.shape[0]), lambda i, j: a.get(j, i), a.kind)
+                from . import linalg_rules as LA
+                if isinstance(a, LA.TokArr):
+                    res = LA.TokArr(LA.derived(st, LA.TR(a.tok)), (a.shape[1], a.shape[0]))
+                else:
+                    res = SArr((a.shape[1], a.shape[0]), lambda i, j: a.get(j, i), a.kind)
                 if isinstance(base, Ref):
                     root = base.root if base.origin == 'alias' and base.root is not None else base.oid
                     note = 'view of ' + (base.note or ex.frame_roots.get(base.oid, 'object'))
